@@ -1,4 +1,9 @@
 import CoxeterVerif.Lemmas.MeshIOFormats
+/-!
+  Helper lemmas of C20, part 3: X3D / HTML — the `point_indices` insertion loop equals consecutive ranges each
+  followed by −1 (`pointIndices_eq`), `splitIdx` inverts it, `chunk3` inverts the flattened `point` list, the
+  expanded mesh re-indexes to the original corner coordinates (`corners_expand`), tree readers.
+-/
 set_option linter.unusedSimpArgs false
 namespace MeshIO
 
